@@ -217,6 +217,6 @@ Definition run_spec (l obs : list tok) : list tok :=
       end
   | Some (CSpan s p g rnd x) =>
       match parse_started obs with Some o => spec_start_span s p g o | None => fail "obs:unparsable" end
-  | Some (CDesc s) => match obs with [TB _] => [] | _ => fail "obs:unparsable" end
+  | Some (CDesc s) => match obs with [_] => [] | _ => fail "obs:unparsable" end   (* the description is not part of the property: correspondence only *)
   | None => bad_case
   end.
